@@ -154,15 +154,19 @@ def run(ctx):
     mpi_cases, mpi_meta = [], []
     lp_cases, lp_meta = [], []
 
-    def same_res(a, b, exact=True):
+    def same_res(a, b, exact=True, inst=None):
         """exact: identical v, sigma, num_iter.  Otherwise (another memory layout / storage format / dtype of the same data, where
-        BLAS may sum in another order): v within 1e-9; sigma and num_iter identical when v is bitwise identical, else num_iter
-        within 1 (borderline stopping test) and sigma not compared (exact ties may be broken differently)"""
+        BLAS may sum in another order): v within 1e-9, num_iter within 1 (borderline stopping test), and sigma compared tie-aware:
+        it must be a maximiser of the exact values at the returned v (rounding may break an exact tie differently)"""
         if np.asarray(a.v).dtype != np.float64:
             return False
-        if exact or np.array_equal(a.v, b.v):
+        if exact:
             return a.num_iter == b.num_iter and np.array_equal(a.sigma, b.sigma) and np.array_equal(a.v, b.v)
-        return abs(a.num_iter - b.num_iter) <= 1 and np.allclose(a.v, b.v, rtol=1e-9, atol=1e-9)
+        if abs(a.num_iter - b.num_iter) > 1 or not np.allclose(a.v, b.v, rtol=1e-9, atol=1e-9):
+            return False
+        if np.array_equal(a.sigma, b.sigma) or inst is None:
+            return np.array_equal(a.sigma, b.sigma)
+        return sigma_is_near_greedy(inst, [frac(float(x)) for x in a.v], [int(x) for x in a.sigma])
 
     def alias_solve(inst, form, ddp, inp0, kind):
         methods = ["vi", "pi", "mpi"] + ([] if "sparse" in kind else ["lp"])
@@ -306,7 +310,7 @@ def run(ctx):
                     okd = np.asarray(got.v).dtype == np.float64 and (np.abs(got.v - ref[mth].v).max() <= ddp.epsilon or
                                                                     max(got.num_iter, ref[mth].num_iter) >= ddp.max_iter)
                 elif mth == "vi":
-                    okd = same_res(got, ref[mth], exact=False)
+                    okd = same_res(got, ref[mth], exact=False, inst=inst)
                 else:
                     okd = np.asarray(got.v).dtype == np.float64 and np.allclose(got.v, ref[mth].v, rtol=1e-9, atol=1e-9)
                 if not okd:
